@@ -68,6 +68,13 @@ fn experiments() -> Vec<Exp> {
             v.push(Exp::Flip { rate: None, container, len });
         }
         v.push(Exp::Flip { rate: Some(0.001), container, len: 70_000 });
+        // lengths of arbitrary magnitude (size-dependent paths: word packing, chunking, fast paths)
+        for len in [100usize, 257, 1000, 3000] {
+            v.push(Exp::Flip { rate: Some(0.3), container, len });
+        }
+    }
+    for len in [100usize, 1000] {
+        v.push(Exp::Umad { add: 0.3, del: 0.1, len });
     }
     for (add, del) in [(0.1, 0.1), (0.3, 0.05), (0.5, 0.5), (0.9, 0.3), (0.09, 0.09 / 1.09), (1.0, 0.5), (0.5, 0.0)] {
         for len in [1usize, 5, 20] {
@@ -78,9 +85,13 @@ fn experiments() -> Vec<Exp> {
         v.push(Exp::UmadEmpty { ctor, add, empty });
     }
     for container in 0..4u8 {
-        for len in [1usize, 7, 40] {
+        for len in [1usize, 7, 40, 100, 257, 1000] {
             v.push(Exp::Uniform { container, len });
         }
+    }
+    for len in [257usize, 1000, 5000] {
+        v.push(Exp::RandomBits { p: None, via_generator: false, len });
+        v.push(Exp::RandomBits { p: Some(0.3), via_generator: true, len });
     }
     for len in [1usize, 16, 100] {
         v.push(Exp::RandomBits { p: None, via_generator: false, len });
